@@ -120,6 +120,16 @@ func (c *FnCtx) specEnvAt(st *State, pos token.Pos) *SpecEnv {
 					return ev
 				}
 			}
+			// the sequence an iterator loop runs over: seq<N>
+			if strings.HasPrefix(name, "seq") {
+				if n, err := strconv.Atoi(name[3:]); err == nil {
+					for node, v := range c.mapSeqOf {
+						if c.loopOrd[node] == n {
+							return v
+						}
+					}
+				}
+			}
 			// the key sequence a range-over-map loop runs over: mkeys<N>
 			if strings.HasPrefix(name, "mkeys") {
 				if n, err := strconv.Atoi(name[5:]); err == nil {
